@@ -104,9 +104,9 @@ def c04(ck, thorough):
     # one DFA row filled from a sparse NFA state through the byte classes (sparse_iter)
     mc(ck, "ACDfaRow", "c04_dfarow", {"MaxByte": 6 if thorough else 5, "NextIds": "{3, 7}"},
        ["OncePerClass", "RowCorrect", "RepInClass", "ClassesRespectTransitions"])
-    fams = ["f23", "ci", "shapes", "rand:%d:12:8" % (600 if thorough else 80)]
+    fams = ["f23", "ci", "shapes", "edge", "rand:%d:12:8" % (600 if thorough else 80)]
     if thorough:
-        fams += ["f33", "ci3"]
+        fams += ["f33", "ci3", "shapesbig"]
     product(ck, "c04", fams, full=True, shards=4, mks=ALLK)
     calls(ck, "c04_kinds", "kinds", scale=6 if thorough else 1, mks=ALLK, an="both", flav="all")
     calls(ck, "c04_fans", "fans", scale=2 if thorough else 1, mks=ALLK, an="no", flav="all")
@@ -240,9 +240,12 @@ def c20(ck, thorough):
 
 def c16(ck, thorough):
     """low-level automaton contract"""
+    # the special-state id layout after shuffling and the remapper's chain resolution
+    mc(ck, "ACShuffle", "c16_shuffle", {"MaxStates": 12 if thorough else 10},
+       ["RemapCorrect", "Layout", "SwapsArePermutations"])
     mc(ck, "ACSearch", "c16_search", search_consts(ALLK, [False], [False], [False], False),
        SEARCH_INV, ["PositionMonotone"])
-    fams = ["f23", "ci", "shapes", "rand:%d:12:8" % (600 if thorough else 80)]
+    fams = ["f23", "ci", "shapes", "edge", "rand:%d:12:8" % (600 if thorough else 80)]
     product(ck, "c16", fams, full=True, shards=4, mks=ALLK)
     calls(ck, "c16_recipe", "recipe", scale=6 if thorough else 1, mks=ALLK, an="no", flav="find")
     calls(ck, "c16_fans", "fans", scale=2 if thorough else 1, mks=ALLK, an="no", flav="all")
